@@ -158,7 +158,7 @@ def op_get(rng, cfg, setup_code=None, main_code=None, cancel=None, size=None, re
     sink = "ok" if sink_fail is None else "fail%d" % sink_fail
     return "get:%s:%s:%s@" % (H(b"remote file.bin"), sink, cb) + "/".join(groups)
 
-def op_put(rng, cfg, verb=None, setup_code=None, main_code=None, cancel=None, size=None, src_fail=None, completion=226, chop=None):
+def op_put(rng, cfg, verb=None, setup_code=None, main_code=None, cancel=None, size=None, src_fail=None, completion=226, chop=None, poison=False):
     verb = verb or rng.choice(["STOR", "STOU", "APPE"])
     groups = [setup_groups(rng, cfg, setup_code)]
     if chop is None:
@@ -183,7 +183,7 @@ def op_put(rng, cfg, verb=None, setup_code=None, main_code=None, cancel=None, si
                 groups.append(",".join([rnd_reply(rng, mc)] + comp + ["Drecv:-:c"]) + cuts(rng))
         else:
             groups.append(rnd_reply(rng, mc))
-    src = "ok" if src_fail is None else "fail%d" % src_fail
+    src = ("poison" if poison else "ok") if src_fail is None else "fail%d" % src_fail
     return "put:%s:%s:%s:%s:%s:%s@" % (verb, H(b"up.bin"), spec, chop, src, cb) + "/".join(groups)
 
 def op_list(rng, cfg, setup_code=None, main_code=None, names=None, text=None, completion=226):
